@@ -16,7 +16,7 @@ RULE = ("conv probe, parameters against a reference: MAIL/RCPT lines built from 
         "reference grammar into valid / invalid(class) / unspecified and the parser's verdict judged. conv probe: MAIL/RCPT lines with each "
         "parameter x {good, bad value, disabled, duplicated, lower-case, long-s spelled} x flag sets. "
         "non-trivial = the string contains '@' or a parameter; distinct = distinct case line")
-THEOREMS = ["C11_exact_mailbox", "C11_special_refused", "C11_null_sender", "C11_quoted_exact", "C11_mail_exact_or_refused", "C11_mail_refused_before_backend", "C11_rcpt_exact_or_refused"]
+THEOREMS = ["C11_exact_mailbox", "C11_special_refused", "C11_null_sender", "C11_quoted_exact", "C11_mail_exact_or_refused", "C11_mail_refused_before_backend", "C11_rcpt_exact_or_refused", "C11_empty_value_unparsable", "C11_empty_value_refused"]
 nontrivial = lambda case, ans: "40" in case.split("\t")[-1] or case.startswith("conv")
 signature = lambda case, ans: (case.split("\t")[1] + "->" + ans.split("/")[0]) if case.startswith("parse") else cc.signature(case, ans)
 mutate = lambda case, rng: []
@@ -193,7 +193,9 @@ def reference_cases(tier, rng):
     mbad = [b"SIZE=abc", b"SIZE=", b"SIZE=-1", b"SIZE=1=2", b"BODY=9BIT", b"BODY=", b"RET=SOME", b"RET=", b"ENVID=", b"ENVID=a+2", b"ENVID=a+zz", b"ENVID=a+07b",
             b"ENVID=a=b", b"AUTH=+ZZ", b"AUTH=a+20b", b"AUTH=", b"XYZ=1", b"FOO", b"=1", b"SMTPUTF8=1=2",
             # a parameter that takes no value, given one (RFC 6531 3.4, RFC 8689 2)
-            b"SMTPUTF8=x", b"REQUIRETLS=1", b"smtputf8=yes", b"REQUIRETLS=REQUIRETLS"]
+            b"SMTPUTF8=x", b"REQUIRETLS=1", b"smtputf8=yes", b"REQUIRETLS=REQUIRETLS",
+            # ... or an equals sign and nothing: esmtp-value is 1*(%d33-60 / %d62-126) (RFC 5321 4.1.2)
+            b"SMTPUTF8=", b"smtputf8=", b"REQUIRETLS=", b"FOO="]
     mgood = [b"SIZE=5", b"BODY=8BITMIME", b"RET=FULL", b"ENVID=ok", b"SMTPUTF8", b"AUTH=<>"]
     for bad in mbad:
         mail_case(ALL, [bad], "REFUSED:M")
@@ -203,7 +205,7 @@ def reference_cases(tier, rng):
             mail_case(ALL, toks, "REFUSED:M")
     rbad = [b"NOTIFY=NEVER,SUCCESS", b"NOTIFY=SUCCESS,NEVER", b"NOTIFY=FAILURE,DELAY,NEVER", b"notify=success,never", b"NOTIFY=SUCCESS,SUCCESS", b"NOTIFY=SUCCESS,",
             b"NOTIFY=,SUCCESS", b"NOTIFY=", b"NOTIFY=BOGUS", b"NOTIFY=SUCCESS=1", b"ORCPT=rfc822", b"ORCPT=rfc822;", b"ORCPT=;a@b", b"ORCPT=rfc822;a+zz", b"ORCPT=rfc822;a+07b",
-            b"RRVS=notatime", b"RRVS=2021-02-29T00:00:00Z", b"RRVS=", b"FOO", b"FOO=1"]
+            b"RRVS=notatime", b"RRVS=2021-02-29T00:00:00Z", b"RRVS=", b"FOO", b"FOO=1", b"FOO=", b"ORCPT="]
     rgood = [b"NOTIFY=SUCCESS", b"ORCPT=rfc822;o@x", b"RRVS=2020-01-02T03:04:05Z"]
     for bad in rbad:
         rcpt_case(ALL, [bad], "REFUSED:R")
